@@ -27,6 +27,7 @@ type cacheIn struct {
 	Commits []int    `json:"commits,omitempty"` // C06: Commit after these operation indexes (and always at the end)
 	Disk    bool     `json:"disk,omitempty"`    // remote is a disk filespace
 	Steer   bool     `json:"steer"`             // generation avoided the triggers of listed known findings
+	Wide    *WideSpec `json:"wide,omitempty"`   // C07: the remote also has a many-entry directory "w"
 }
 
 func genTree(r *Rand, maxNodes int) treeSpec {
@@ -136,6 +137,12 @@ func c07Gen(r *Rand, tier string) interface{} {
 	}
 	gm := NewModelTree()
 	_ = populate(nil, gm, in.Remote)
+	if r.Chance(1, 20) && !gm.has("w") && gm.lookup([]string{"w"}) == nil {
+		in.Wide = genWide(r)
+		in.Wide.Remove = 0 // removals, if any, come from the generated operations (through the cache)
+		_ = in.Wide.Apply(nil, gm, nil)
+		n = 1 + r.Intn(12)
+	}
 	in.Ops = genFsOps(r, n, nil, r.Chance(1, 2), gm)
 	if r.Chance(1, 2) {
 		in.Steer = true
@@ -154,6 +161,12 @@ func c07Run(inI interface{}, env *Env) *Failure {
 	model := NewModelTree()
 	if err := populate(remote, model, in.Remote); err != nil {
 		panic(harnessTrouble{"populate: " + err.Error()})
+	}
+	if in.Wide != nil {
+		env.Count("probe.remote-with-a-many-entry-directory")
+		if err := in.Wide.Apply(remote, model, nil); err != nil {
+			panic(harnessTrouble{"wide directory on the remote: " + err.Error()})
+		}
 	}
 	cache, err := fscache.NewMemCache(remote)
 	if err != nil {
